@@ -826,6 +826,29 @@ func (cx *c04ctx) r2r3r5() {
 			return true
 		})
 		if errObj == nil {
+			// `err = keep(err, <-ch)`: the completion is handed to a function that decides what to keep
+			ast.Inspect(last.Body, func(x ast.Node) bool {
+				as, ok := x.(*ast.AssignStmt)
+				if !ok || len(as.Lhs) != 1 || len(as.Rhs) != 1 {
+					return true
+				}
+				call, ok := as.Rhs[0].(*ast.CallExpr)
+				if !ok {
+					return true
+				}
+				for _, a := range call.Args {
+					if core.IsRecvFrom(cx.info, ast.Unparen(a), cx.ch) {
+						if id, ok := as.Lhs[0].(*ast.Ident); ok {
+							if o := cx.info.Uses[id]; o != nil {
+								errObj = o
+							}
+						}
+					}
+				}
+				return true
+			})
+		}
+		if errObj == nil {
 			ast.Inspect(last.Body, func(x ast.Node) bool {
 				if as, ok := x.(*ast.AssignStmt); ok && len(as.Lhs) == 1 && len(as.Rhs) == 1 {
 					if rid, ok := ast.Unparen(as.Rhs[0]).(*ast.Ident); ok && recvVars[cx.info.Uses[rid]] {
